@@ -238,6 +238,8 @@ pub fn gen_convert(rng: &mut Rng, pool: &Pool, mask: GenMask) -> RunSpec {
         fifos,
         faults: vec![],
         rand_seed: rng.next_u64() | 1,
+        env: vec![],
+        prior: vec![],
     }
 }
 
@@ -327,16 +329,59 @@ pub fn gen_build(rng: &mut Rng, pool: &Pool, mask: GenMask) -> RunSpec {
             files.push((format!("{}{}.svg", od, rng.pick(STEMS)), stale));
         }
     }
-    RunSpec { mode: Mode::Build(Build { pattern, outdir }), dirs, files, stdin: None, stdin_pipe: false, fifos: vec![], faults: vec![], rand_seed: rng.next_u64() | 1 }
+    RunSpec { mode: Mode::Build(Build { pattern, outdir }), dirs, files, stdin: None, stdin_pipe: false, fifos: vec![], faults: vec![], rand_seed: rng.next_u64() | 1, env: vec![], prior: vec![] }
 }
 
-pub fn gen_workload(rng: &mut Rng, pool: &Pool) -> RunSpec {
+fn gen_one(rng: &mut Rng, pool: &Pool) -> RunSpec {
     let mask = GenMask::swarm(rng);
     if rng.chance(1, 4) {
         gen_build(rng, pool, mask)
     } else {
         gen_convert(rng, pool, mask)
     }
+}
+
+const ENVS: &[&[(&str, &str)]] = &[
+    &[("LANG", "de_DE.UTF-8"), ("LC_ALL", "de_DE.UTF-8"), ("TZ", "Asia/Tokyo")],
+    &[("LANG", "C"), ("TERM", "dumb"), ("COLUMNS", "40"), ("NO_COLOR", "1")],
+    &[("HOME", "homedir"), ("USER", "nobody"), ("TMPDIR", "."), ("XDG_CACHE_HOME", "cache")],
+    &[("TERM", "xterm-256color"), ("COLORTERM", "truecolor"), ("CLICOLOR_FORCE", "1"), ("RUST_LOG", "trace")],
+    &[("PATH", "/usr/bin:/bin"), ("PWD", "/nonexistent"), ("SHELL", "/bin/sh")],
+];
+
+/// One judged invocation, sometimes under ambient conditions nothing in the
+/// contract depends on (environment, terminal or not, what time it is), and
+/// sometimes after an earlier invocation in the same directory.
+pub fn gen_workload(rng: &mut Rng, pool: &Pool) -> RunSpec {
+    let mut spec = gen_one(rng, pool);
+    if rng.chance(3, 10) {
+        spec.env = rng.pick(ENVS).iter().map(|(k, v)| (k.to_string(), v.to_string())).collect();
+    }
+    if rng.chance(1, 8) {
+        spec.faults.push(format!("tty:{}", rng.pick(&["STDOUT", "STDIN", "STDERR"])));
+        if rng.chance(1, 2) {
+            spec.faults.push("tty:STDOUT".to_string());
+        }
+    }
+    if rng.chance(1, 7) {
+        // a day, a year, decades off; before the epoch of most file systems
+        spec.faults.push(format!("clock:{}", rng.pick(&[86_400i64, 31_536_000, 1_000_000_000, -400_000_000, 4_000_000_000])));
+    }
+    if spec.fifos.is_empty() && rng.chance(1, 10) {
+        let mut p = gen_one(rng, pool);
+        p.fifos.clear();
+        if let Mode::Convert(c) = &mut p.mode {
+            if let InputSel::File(name) = &c.input {
+                // the earlier run's input must be a plain file (or missing)
+                let _ = name;
+            }
+        }
+        if rng.chance(1, 3) {
+            p.faults = hard_plan(rng, 1500);
+        }
+        spec.prior.push(p);
+    }
+    spec
 }
 
 // ---------------------------------------------------------------- faults
